@@ -29,7 +29,7 @@ HP = {
 def structure_cases(draw):
     return {
         "tree": M.wrap_root(draw(M.trees())),
-        "wq": draw(st.sampled_from(sorted(O.QTALL))),
+        "wq": draw(st.sampled_from(sorted(O.QTALL) + ["none"])),
         "wq_by_name": draw(st.booleans()),
         "aq": draw(st.sampled_from(sorted(ACT))),
         "filter": draw(st.one_of(st.none(), st.lists(st.integers(0, 30), max_size=6))),
@@ -47,7 +47,7 @@ def base_class(m):
 
 def snapshot(model):
     snap = {}
-    for name, m in model.named_modules():
+    for name, m in model.named_modules(remove_duplicate=False):
         snap[name] = {
             "obj": m,
             "type": type(m),
@@ -64,10 +64,11 @@ def exec_structure(case):
     g = torch.Generator().manual_seed(case["seed"])
     dtype = gen.DT[case["dtype"]]
     model = M.build_tree(case["tree"], g).to(dtype)
-    wq = O.QTALL[case["wq"]]
+    wq = O.QTALL.get(case["wq"])
     aq = ACT[case["aq"]]
-    names = [n for n, _ in model.named_modules()]
-    mods = dict(model.named_modules())
+    # every NAME of every module: a module (or a container) may be registered under several names
+    names = [n for n, _ in model.named_modules(remove_duplicate=False)]
+    mods = dict(model.named_modules(remove_duplicate=False))
     flt = None
     if case["filter"] is not None:
         flt = [mods[names[i % len(names)]] for i in case["filter"]]
@@ -75,7 +76,9 @@ def exec_structure(case):
     eligible = {n for n, m in mods.items() if n != "" and (isinstance(m, (torch.nn.Linear, torch.nn.Conv2d)) or (isinstance(m, torch.nn.LayerNorm) and aq is not None))}
     if flt is not None:
         eligible = {n for n in eligible if any(mods[n] is f for f in flt)}
-    kw = {"weights": case["wq"] if case["wq_by_name"] else wq}
+    kw = {"weights": case["wq"] if case["wq_by_name"] and wq is not None else wq}
+    if wq is None and case["seed"] % 2:
+        kw = {}
     if aq is not None:
         kw["activations"] = case["aq"] if case["wq_by_name"] else aq
     if flt is not None:
@@ -91,7 +94,14 @@ def exec_structure(case):
         which = "+".join(kinds) or "none"
         lnaff = any(isinstance(mods[n], torch.nn.LayerNorm) and not mods[n].elementwise_affine for n in eligible)
         return out.fail(f"structure/quantize-raises:{r.type}/{'layernorm-without-affine' if lnaff else which}", r.text)
-    after = dict(model.named_modules())
+    after = dict(model.named_modules(remove_duplicate=False))
+    shared = {n for n in names if sum(1 for k in names if mods[k] is mods[n]) > 1}
+    if shared:
+        out.klass.append("module-under-several-names")
+    for n in shared:
+        for k in shared:
+            if n in after and k in after and (mods[n] is mods[k]) != (after[n] is after[k]):
+                out.fail("structure/sharing", f"{n!r} and {k!r} were {'the same module' if mods[n] is mods[k] else 'distinct modules'} before quantize() and are {'the same' if after[n] is after[k] else 'distinct'} afterwards")
     if list(after) != names:
         return out.fail("structure/names", f"named_modules() order/names changed: {names} -> {list(after)}")
     for n in names:
@@ -119,7 +129,7 @@ def exec_structure(case):
                 p = newp[pn]
                 if isinstance(p, QTensor) or p.dtype != dt or p.device != dev or not torch.equal(p.detach(), val):
                     out.fail(f"{tag}/parameter-changed/{pn}", f"{n!r}.{pn}: float parameter not preserved bit-for-bit (dtype {dt} -> {p.dtype})")
-            if getattr(m1, "name", n) != n:
+            if getattr(m1, "name", n) != n and not (n in shared and getattr(m1, "name", n) in names and mods[m1.name] is m0):
                 out.fail(f"{tag}/name", f"{n!r} carries name {m1.name!r}")
         else:
             if m1 is not m0:
@@ -144,7 +154,7 @@ def function_cases(draw):
     c = {
         "kind": kind,
         "dtype": draw(gen.dtypes),
-        "wq": draw(st.sampled_from(sorted(O.QTALL))),
+        "wq": draw(st.sampled_from(sorted(O.QTALL) + ["none"])),  # "none": only the activations are quantized
         "aq": draw(st.sampled_from(sorted(ACT))),
         "input": draw(st.sampled_from(["float", "float", "q-same", "q-other"])),
         "scales": draw(st.sampled_from(["ones", "drawn", "drawn", "calibrated"])),
@@ -186,7 +196,7 @@ def _exec_function(case):
     dtype = gen.DT[case["dtype"]]
     g = torch.Generator().manual_seed(case["seed"])
     kind = case["kind"]
-    aq, wq = ACT[case["aq"]], O.QTALL[case["wq"]]
+    aq, wq = ACT[case["aq"]], O.QTALL.get(case["wq"])
     fm = M.build_tree(case["hp"], g)
     model = torch.nn.Sequential(fm).to(dtype)
     if kind == "linear":
@@ -272,7 +282,8 @@ def _exec_function(case):
     if kind == "ln":
         w64 = None if qm.weight is None else qm.weight.detach().to(torch.float64)
     else:
-        w64 = qm.qweight.dequantize().detach().to(torch.float64)
+        w64 = qm.qweight
+        w64 = (w64.dequantize() if isinstance(w64, QTensor) else w64).detach().to(torch.float64)  # (weights not quantized: the weight itself)
     b64 = None if getattr(qm, "bias", None) is None else qm.bias.detach().to(torch.float64)
     if isinstance(inp, QBytesTensor):
         if aq is not None and not (inp.qtype == aq and inp.axis is None):
